@@ -145,8 +145,13 @@ def _get_initial_guess(
     """
     # TODO might be nice to merge with ALS/other CP methods
     if isinstance(init, Sequence) and not isinstance(init, str):
-        return ttb.ktensor(init).normalize("all")
+        init = ttb.ktensor(init)
     if isinstance(init, ttb.ktensor):
+        if init.shape != data.shape or init.ncomponents != rank:
+            raise ValueError(
+                f"Initial guess of shape {init.shape} with {init.ncomponents} "
+                f"components does not match data of shape {data.shape} and rank {rank}"
+            )
         init.normalize("all")
         return init
     if init == "random":
